@@ -68,6 +68,26 @@ theorem wal_spec {h : Heap Nat} {s : StreamV} (l g : Nat) (w : s.lc.WF h) :
     WF_appendMany [l] g (WF_clip w), ?_, rfl⟩
   simpa [view_clip] using view_appendMany [l] g (WF_clip w)
 
+/-- `append([]Lifecycle{guard}, parent's list...)` (concurrent_stream.go:44-47): two fresh arrays at most, no existing
+    array written, the result reads `guard :: parent's list`. -/
+theorem cml_spec {h : Heap Nat} {s : StreamV} (gd g : Nat) (w : s.lc.WF h) :
+    Extends h (concMapLifecycle h s gd g).1 ∧
+    (concMapLifecycle h s gd g).2.lc.WF (concMapLifecycle h s gd g).1 ∧
+    view (concMapLifecycle h s gd g).1 (concMapLifecycle h s gd g).2.lc = gd :: view h s.lc ∧
+    (concMapLifecycle h s gd g).2.prov = s.prov ++ [.concMapAdd10] := by
+  have e0 : Extends h (allocWith h [gd] 0).1 := extends_push _ _
+  have w0 : (allocWith h [gd] 0).2.WF (allocWith h [gd] 0).1 := by
+    simp [allocWith, Slice.WF, arrOf_append_new]
+  have v0 : view (allocWith h [gd] 0).1 (allocWith h [gd] 0).2 = [gd] := by
+    simp [allocWith, view, arrOf_append_new]
+  have o0 : Owned h (allocWith h [gd] 0).2 := Or.inr (Nat.le_refl _)
+  have hv : view (allocWith h [gd] 0).1 s.lc = view h s.lc := view_extends e0 w
+  unfold concMapLifecycle
+  refine ⟨(appendMany_owned _ g e0 o0).1, WF_appendMany _ g w0, ?_, rfl⟩
+  show view (appendMany _ _ _ g).1 (appendMany _ _ _ g).2 = _
+  rw [view_appendMany _ g w0, v0, hv]
+  rfl
+
 theorem obsOf_getElem? (st : DState) (i : Nat) :
     (obsOf st)[i]? = (st.streams[i]?).map (fun s => (view st.heap s.lc, s.prov)) := by
   simp [obsOf]
@@ -112,6 +132,18 @@ theorem derive_step (st : DState) (hwf : DWF st) (op : DOp) :
         · exact hwf t ht
         · rw [List.mem_singleton.mp ht]; exact hsw
       · simp [obsOf]
+    | concMap gd =>
+      obtain ⟨hext, hw, hv, hp⟩ := cml_spec gd op.grow hsw
+      refine ⟨?_, hext, ?_⟩
+      · intro t ht
+        rcases List.mem_append.mp ht with ht | ht
+        · exact WF_extends hext (hwf t ht)
+        · rw [List.mem_singleton.mp ht]; exact hw
+      · simp only [obsOf, List.map_append, List.map_cons, List.map_nil, hv, hp]
+        congr 1
+        apply List.map_congr_left
+        intro t ht
+        rw [view_extends hext (hwf t ht)]
 
 theorem runD_spec (ops : List DOp) : ∀ (st : DState), DWF st →
     DWF (runD st ops) ∧ Extends st.heap (runD st ops).heap ∧ obsOf (runD st ops) = specRun (obsOf st) ops := by
@@ -180,11 +212,15 @@ theorem C17_materialise (st : DState) (hwf : DWF st) (ops : List DOp) (i : Nat) 
 def exState : DState := initState [([0], 1)]
 def exOps : List DOp :=
   [⟨0, .withLifecycle 1, 1⟩, ⟨1, .withLifecycle 2, 2⟩, ⟨2, .withLifecycle 3, 3⟩, ⟨2, .withLifecycle 4, 0⟩,
-   ⟨2, .share .filterEven, 0⟩, ⟨5, .withLock 6, 1⟩, ⟨0, .withLifecycle 7, 0⟩]
+   ⟨2, .share .filterEven, 0⟩, ⟨5, .withLock 6, 1⟩, ⟨0, .withLifecycle 7, 0⟩,
+   -- a concurrent-map child (guard 100) of stream 2 (3 elements, spare capacity), siblings before and after, a
+   -- lifecycle below the child, a second concurrent-map child of the same parent
+   ⟨2, .concMap 100, 0⟩, ⟨2, .withLifecycle 9, 1⟩, ⟨8, .withLifecycle 10, 2⟩, ⟨2, .concMap 101, 3⟩]
 
 example : DWF exState := by decide
 example : (obsOf (runD exState exOps)).map (·.1) =
-    [[0], [0, 1], [0, 1, 2], [0, 1, 2, 3], [0, 1, 2, 4], [0, 1, 2], [0, 1, 2, 6], [0, 7]] := by decide
+    [[0], [0, 1], [0, 1, 2], [0, 1, 2, 3], [0, 1, 2, 4], [0, 1, 2], [0, 1, 2, 6], [0, 7],
+     [100, 0, 1, 2], [0, 1, 2, 9], [100, 0, 1, 2, 10], [101, 0, 1, 2]] := by decide
 
 /-- **Witness (D16, pre-repair code).** Parent with one spare cell, two siblings: after the second derivation the
     FIRST sibling opens the second sibling's lifecycle (5 instead of 4) — immutability fails exactly when len < cap. -/
@@ -195,6 +231,21 @@ theorem C17_witness_unrepaired_stream :
     (obsOf (runDNoClip st ops)).map (·.1) = [[0, 1], [0, 1, 5], [0, 1, 5]] ∧
     (obsOf (runD st ops)).map (·.1) = [[0, 1], [0, 1, 4], [0, 1, 5]] ∧
     obsOf (runDNoClip st ops) ≠ specRun (obsOf st) ops := by
+  decide
+
+/-- **Witness (wrong prepend).** `slices.Insert(src.allLifecycleElement, 0, guard)` instead of
+    `append([]Lifecycle{guard}, src.allLifecycleElement...)`: a parent `[0,1,2]` with one spare cell loses its last
+    element and gains the child's guard as soon as a concurrent-map child is DERIVED (the parent's array is written);
+    the modelled code leaves the parent alone.  Fails exactly when len < cap. -/
+theorem C17_witness_insert_in_place :
+    let st := initState [([0, 1, 2], 1)]
+    let ops : List DOp := [⟨0, .concMap 100, 0⟩]
+    DWF st ∧
+    (obsOf (runDInsert st ops)).map (·.1) = [[100, 0, 1], [100, 0, 1, 2]] ∧
+    (runDInsert st ops).heap.take 1 ≠ st.heap ∧
+    obsOf (runDInsert st ops) ≠ specRun (obsOf st) ops ∧
+    (obsOf (runD st ops)).map (·.1) = [[0, 1, 2], [100, 0, 1, 2]] ∧
+    (runD st ops).heap.take 1 = st.heap := by
   decide
 
 /-! ## queries -/
